@@ -232,6 +232,10 @@ def run_block(src: str, bindings: dict, local: bool = False):
     def stub(i):
         def f(*args):
             r = len(log)
+            if r > 3000:
+                # a block that keeps filling the collection it iterates over: same classification as the 2 s alarm, but
+                # before the snapshots of the growing arguments take gigabytes (thorough tier: the process was killed)
+                raise _Timeout()
             log.append((i, [snap(a) for a in args]))
             if i == 0:
                 return r
